@@ -34,7 +34,7 @@ RULE = ("case = (state kind, n, h, parameter scale, parameters); generated with 
         "numpy integer scalars, 0-d numpy / torch integers; bool singleton, 0/1, numpy bools, 0-d bool arrays / tensors; keyword and positional); "
         "CALL FORMS (extension round 2): per run ~24 cases (state kind, n, h, scale in {0.1,1,3}, random 0/1 rows) in the forms vector (n,), batch (B,n) with B in 1..3 "
         "(incl. B = 1: a batch that must keep its axis) and rank-3 (B1,B2,n): effective_energy / amplitude / phase / psi / probability of the REAL state against the model of "
-        "auto_unsqueeze_args (accepted-or-refused, exact result shape, entries; vector and batch forms at property level, rank-3 at aux level); "
+        "auto_unsqueeze_args (accepted-or-refused, exact result shape, entries; vector and batch forms at property level, rank-3 recorded only (ctx.info: outside the quantifier)); "
         "each case is evaluated, then re-parametrised IN PLACE and evaluated again on the same state object and the same space tensors (history); non-trivial iff some visible bias != 0 and some hidden bias != 0 and (h != n or scale >= 1); distinct by hash of the case")
 
 
@@ -292,8 +292,9 @@ def _eval(ctx, st, rows, space_t, gen_space, kind, n, h, scale, am, ph, before, 
         det3 = {"shapes": {"amplitude": list(amp3.shape), "psi": list(psi3.shape), "probability": list(p3.shape), "phase": list(ph3.shape)}}
     except Exception as e:  # noqa: BLE001  (a call form that raises is a failed call form, reported with the case)
         ok3, det3 = False, {"exception": type(e).__name__, "message": str(e)[:200]}
-    ctx.oracle("rank-3 batch form == batched rows (shape v.shape[:-1])", bool(ok3), case, detail=det3,
-               sig=f"{kind}/call-form-rank3", theorem="batched form is the map of the vector form (model by construction)")
+    # rank-3 is outside the quantifier "vector and batched call forms" (third audit B-3): recorded, never judged under C01 (the rank-3 call
+    # unitaries._rotate_basis_state makes is covered where it matters, by C04's rotation points)
+    ctx.info(f"{kind}: rank-3 batch form == batched rows (shape v.shape[:-1])", bool(ok3), True)
 
 
 def gen_cases(ctx, thorough):
@@ -342,13 +343,14 @@ def callform_case(ctx, case):
     """one state, one tensor argument: every public evaluation method of the REAL state against the model of the decorated method
     (QV.Model.CallShape / States: RBM.effectiveEnergy, Wave.amplitudeCall, phaseCall / phasePosCall, psiCplxCall / psiPosCall,
     probabilityCall).  Vector and batch forms are the property's own quantifier ("vector and batched call forms"): property level;
-    rank-3 arguments (and PositiveWaveFunction.phase on them: scope note C01-1) are aux level."""
+    rank-3 arguments (and PositiveWaveFunction.phase on them: scope note C01-1) are outside it: recorded with ctx.info, never judged
+    (third audit B-3 / B-15: `proposed/C01_phase_rank3.diff`, or an up-front `dim() > 2` refusal, keep the property)."""
     kind, n, h, am, ph, lead = case["kind"], case["n"], case["h"], case["am"], case["ph"], case["lead"]
     ctx.current_case = case
     st = qc.make_positive(n, h, am) if kind == "pos" else qc.make_complex(n, h, am, ph)
     x = torch.tensor(case["rows"], dtype=torch.double).reshape(*lead, n)
     form = "vector" if not lead else ("batch" if len(lead) == 1 else "rank3")
-    level = "property" if len(lead) <= 1 else "aux"
+    level = "property" if len(lead) <= 1 else "info"
     ctx.case(case, nontrivial=any(v != 0 for v in am["b"]) and any(v != 0 for v in am["c"]),
              sample={"callform": form, "kind": kind, "n": n, "h": h, "lead": lead})
     ctx.count(f"callform/{kind}/{form}" + ("/B=1" if lead == [1] else ""))
@@ -363,23 +365,31 @@ def callform_case(ctx, case):
     x0 = x.clone()
     for fn, entry, f, extra in calls:
         impl = cs.impl_result(f, entry)
-        ctx.oracle("call form accepted (vector / batch / rank-3 argument)", not impl["refused"], {**case, "fn": fn}, detail=impl.get("exc"),
-                   sig=f"{kind}/callform/{fn}/accepted", theorem=CALLFORM_THEOREM)
-        if not impl["refused"] and not (fn == "phase_pos" and len(lead) > 1):
-            ctx.oracle("result shape == v.shape[:-1]", impl["shape"] == lead, {**case, "fn": fn}, detail={"shape": impl["shape"]},
-                       sig=f"{kind}/callform/{fn}/shape-oracle", theorem=CALLFORM_THEOREM)
+        if len(lead) <= 1:
+            # third audit B-3: the oracles are property level, so only for the quantifier's own forms (vector / batch); rank-3 is recorded below.
+            ctx.oracle("call form accepted (vector / batch argument)", not impl["refused"], {**case, "fn": fn}, detail=impl.get("exc"),
+                       sig=f"{kind}/callform/{fn}/accepted", theorem=CALLFORM_THEOREM)
+            if not impl["refused"]:
+                # vector form: the sibling docstrings document "(b,) or (1,)" for a 1-D argument; one value is what the property needs
+                shp_ok = impl["shape"] == lead or (not lead and int(np.prod(impl["shape"])) == 1)
+                ctx.oracle("result shape == v.shape[:-1] (vector form: one value)", shp_ok, {**case, "fn": fn}, detail={"shape": impl["shape"]},
+                           sig=f"{kind}/callform/{fn}/shape-oracle", theorem=CALLFORM_THEOREM)
+                if not lead:
+                    ctx.info(f"{fn} (vector form): result shape is ()", impl["shape"], [])
         if ctx.driver is not None:
             model = cs.model_result(ctx.driver.call("c01.callform", fn=fn, n=n, h=h, am=qc.pbits(am), x=cs.arg(x), **extra))
-            lv = "aux" if (fn == "phase_pos" and len(lead) > 1) else level
+            lv = "info" if len(lead) > 1 else level   # rank-3: outside "vector and batched call forms" (B-15)
             sc = float(np.max(np.abs(impl["data"]))) + 1e-300 if not impl["refused"] and impl["data"].size else 1.0
-            cs.compare(ctx, f"{fn} ({form} form)", lv, impl, model, {**case, "fn": fn}, CALLFORM_THEOREM, f"{kind}/callform/{fn}/{form}", scale=sc)
-    ctx.oracle("argument unmodified by the call forms", bool(torch.equal(x, x0)), case, sig=f"{kind}/callform/arg-unmodified", theorem=CALLFORM_THEOREM)
+            cs.compare(ctx, f"{fn} ({form} form)", lv, impl, model, {**case, "fn": fn}, CALLFORM_THEOREM, f"{kind}/callform/{fn}/{form}", scale=sc,
+                       one_value_ok=not lead)
+    # C01 says nothing about the caller's argument staying untouched (third audit B-11): recorded, no verdict
+    ctx.info("argument unmodified by the call forms", bool(torch.equal(x, x0)), True)
     if kind == "pos" and len(lead) <= 1 and ctx.driver is not None:
         # the base-class formula amplitude*(cos,sin)(phase) evaluated in the MODEL with the decorated zero phase == the real override psi
         base = cs.model_result(ctx.driver.call("c01.callform", fn="psi_pos_base", n=n, h=h, am=qc.pbits(am), x=cs.arg(x)))
         impl = cs.impl_result(lambda: st.psi(x), "pair")
         cs.compare(ctx, f"PositiveWaveFunction.psi == base-class polar formula with phase = 0 ({form} form)", "property", impl, base, case,
-                   "C01_psiPos_polar", f"pos/callform/psi-polar/{form}", scale=float(np.max(np.abs(impl["data"]))) + 1e-300)
+                   "C01_psiPos_polar", f"pos/callform/psi-polar/{form}", scale=float(np.max(np.abs(impl["data"]))) + 1e-300, one_value_ok=not lead)
 
 
 def gen_callforms(ctx, thorough):
